@@ -63,8 +63,27 @@ def run_gen():
     st = BUILD + "/gen_status.json"
     if os.path.exists(st):
         os.remove(st)
-    rc, out = sh([BUILD + "/gen", "-repo", REPO, "-out", COQ + "/gen", "-dict", BUILD + "/dict.txt", "-dump", BUILD + "/tables.txt", "-status", st], timeout=300)
+    # the running package's own tables (through the read-only accessors): the translator
+    # reads the source literals and falls back on these, section by section, where the
+    # package assembles a table in a way it cannot follow
+    rt = BUILD + "/runtime_tables.txt"
+    if os.path.exists(rt):
+        os.remove(rt)
+    hok, _ = build_harness()
+    if hok:
+        rc, dump = sh([BUILD + "/harness", "tables"], timeout=300)
+        if rc == 0 and dump.strip():
+            open(rt, "w").write(dump)
+    rc, out = sh([BUILD + "/gen", "-repo", REPO, "-out", COQ + "/gen", "-dict", BUILD + "/dict.txt", "-dump", BUILD + "/tables.txt", "-status", st]
+                 + (["-runtime", rt] if os.path.exists(rt) else []), timeout=300)
     return rc == 0, out
+
+
+def gen_fallbacks():
+    try:
+        return json.load(open(BUILD + "/gen_status.json")).get("fallback", {})
+    except Exception:
+        return {}
 
 
 # which properties rest on which generated item (an item the translator cannot produce leaves
